@@ -46,7 +46,7 @@ func (c09) RequiredBuckets(tier string) []string {
 		"touches-0", "touches-n", "covers-all",
 		"circular:merged-ends", "circular:not-merged",
 		"input:nested-regions", "input:bare-segment", "input:zero-length",
-		"regions|1", "regions|6", "region-segments|4",
+		"regions|1", "regions|6", "region-segments|4", "results-held-across-calls",
 	}
 }
 
@@ -502,7 +502,30 @@ func (m c09) check(c *fw.Ctx, n int, arg gts.Region) {
 	} else if cl, exp, obs := md.checkInv("InvertCircular", ic, true); cl != "" {
 		c.Violate(cl, enc, exp, obs)
 	}
+
+	// results stay what they were: the values returned for the previous case
+	// are looked at again now that three more calls have been made (a caller
+	// that collects the segments of several regions holds them this long).
+	if h := c09Held; h != nil {
+		now := c09EncSegs(h.mn) + " | " + c09EncRegions(h.il) + " | " + c09EncRegions(h.ic)
+		if now != h.text {
+			c.Violate("result-changed-by-later-call", h.enc+"  then  "+enc, h.text, now)
+		}
+		c.Bucket("results-held-across-calls")
+	}
+	c09Held = &c09Keep{enc: enc, mn: mn, il: il, ic: ic, text: c09EncSegs(mn) + " | " + c09EncRegions(il) + " | " + c09EncRegions(ic)}
 }
+
+// c09Keep holds the values returned for one case until the next case has run.
+type c09Keep struct {
+	enc  string
+	mn   []gts.Segment
+	il   []gts.Region
+	ic   []gts.Region
+	text string
+}
+
+var c09Held *c09Keep
 
 // ---- systematic sweep ----------------------------------------------------
 
